@@ -536,6 +536,45 @@ fn edge_cases(rep: &Report) {
         ("step-quit", "start:\nstc\nclc\n", true, b"n\nquit\n"),
         ("step-eof-mid", "start:\nstc\nclc\ncmc\n", true, b"n\n"),
     ];
+    // a prompt line that cannot be read (not valid UTF-8) is one bad line, not the end of the session: the commands
+    // behind it are still read at prompts -- a print is answered, and q ends the run before the program's end
+    let aftermath: Vec<(&str, &str, bool)> = vec![
+        ("unreadable-line-then-commands-step", "start:\nstc\nclc\ncmc\nstd\ncld\nstc\nclc\n", true),
+        ("unreadable-line-then-commands-tf", "start:\nmov ax, 256\npush ax\npopf\nstc\nclc\ncmc\nstd\ncld\nstc\n", false),
+        ("unreadable-line-then-commands-int3", "start:\nint 3\nstc\nint 3\nclc\nint 3\ncmc\nint 3\nstd\n", false),
+    ];
+    for (name, src, interp) in aftermath {
+        let stdin: &[u8] = b"n\n\xff\xfe bad line\nprint flags\nn\nprint flags\nq\nn\nn\nn\nn\nn\nn\n";
+        let out = run_cli(src.as_bytes(), &CliOpts { interpreted: interp, stdin, cap: 4 << 20, timeout_s: 20.0, ..Default::default() });
+        rep.eval(1);
+        rep.distinct_str(&format!("edge|{}", name));
+        if out.timed_out {
+            rep.inconclusive("cli watchdog");
+            continue;
+        }
+        let p = parse_records(&out.stdout);
+        let plain = String::from_utf8_lossy(&p.plain).to_string();
+        // a flags display names the nine flags: count the word CF as a whole word
+        let shown = plain.split(|c: char| !c.is_ascii_alphanumeric()).filter(|w| *w == "CF").count();
+        let ran_to_end = p.recs.last().map(|r| r.line == "hlt").unwrap_or(false);
+        let sym = if !out.clean_exit() {
+            Some("abort")
+        } else if shown == 0 {
+            Some("commands-behind-it-not-read")
+        } else if ran_to_end {
+            Some("quit-behind-it-not-read")
+        } else {
+            None
+        };
+        if let Some(sym) = sym {
+            rep.fail(Failure {
+                sig: format!("edge:{}:{}", name, sym),
+                what: "C20: after a prompt line that cannot be read, the commands that follow are no longer read at prompts".into(),
+                witness: format!("{{\"kind\": \"cli\", \"source\": {}, \"interpreted_flag\": {}, \"stdin\": {}, \"status\": {}, \"stdout_plain_tail\": {}}}", json_str(src), interp, json_bytes(stdin), json_str(&out.status_str()), json_str(&plain[plain.len().saturating_sub(300)..])),
+                core_item: Some(format!("{}|{}", name, sym)),
+            });
+        }
+    }
     // the same prompts with a stdin on which every read fails (a directory): reported or not, it must end
     let unreadable: Vec<(&str, &str, bool)> = vec![
         ("unreadable-stdin-step", "start:\nstc\nclc\n", true),
